@@ -2,7 +2,7 @@
 import ast
 
 from sa.program import src, own_nodes, call_name, parent, kwarg, AnchorMissing
-from sa import guards, effects
+from sa import guards, effects, resolve
 
 EXPLANATION = (
     "Static rules over pyiga/tensor.py, lowrank.py and lowrank_cy.pyx: (R18.1) protocol matrix: the four tensor classes implement "
@@ -519,7 +519,43 @@ def r18_12(ctx):
                    definite=True)
 
 
+def r18_13(ctx):
+    """TuckerTensor.compress(tol, rtol) truncates with the absolute tolerance max(tol, rtol * |T|): only the RELATIVE tolerance is
+    scaled by the norm of the tensor."""
+    f = ctx.prog.func(T + '.TuckerTensor.compress')
+    calls = [c for c in ast.walk(f.node) if isinstance(c, ast.Call) and (call_name(c) or '').split('.')[-1] == 'find_truncation_rank' and len(c.args) >= 2]
+    if not calls:
+        calls = [c for c in ast.walk(f.node) if isinstance(c, ast.Call) and (call_name(c) or '').split('.')[-1] == '_truncated_hosvd' and len(c.args) >= 2]
+    if not calls:
+        ctx.undecided('R18.13', f.qual, 'tolerance handed to the truncation', f.node, 'not recognised')
+        return
+    e = resolve.expand(calls[0].args[1], calls[0], keep=('T', 'self'))
+    if isinstance(e, ast.Name):
+        # `tol = max(tol, ...)`: a self-referential rebinding of the parameter is read as its right-hand side
+        asg = [s_ for s_ in own_nodes(f.node) if isinstance(s_, ast.Assign) and len(s_.targets) == 1 and isinstance(s_.targets[0], ast.Name)
+               and s_.targets[0].id == e.id and s_.lineno < calls[0].lineno]
+        if len(asg) == 1:
+            e = asg[0].value
+    mx = e if isinstance(e, ast.Call) and call_name(e) in ('max', 'np.maximum') else None
+    if mx is None and isinstance(e, ast.BinOp) and isinstance(e.op, ast.Mult):
+        # max(...) * norm: the absolute tolerance is scaled, too
+        inner = [x for x in (e.left, e.right) if isinstance(x, ast.Call) and call_name(x) in ('max', 'np.maximum')]
+        if inner and any(isinstance(a, ast.Name) and a.id == 'tol' for a in inner[0].args):
+            ctx.violated('R18.13', f.qual, src(e)[:90], calls[0],
+                         'the ABSOLUTE tolerance is multiplied by the norm of the tensor: compress(tol=1.0) of a tensor of norm 2e3 truncates with '
+                         'tolerance 2e3 (error 201 where at most 1 was requested)')
+            return
+    if mx is None or len(mx.args) != 2:
+        ctx.undecided('R18.13', f.qual, src(e)[:90], calls[0], 'tolerance expression not of the form max(tol, rtol * norm)')
+        return
+    a, b = mx.args
+    bare = [x for x in (a, b) if isinstance(x, ast.Name) and x.id == 'tol']
+    scaled = [x for x in (a, b) if isinstance(x, ast.BinOp) and isinstance(x.op, ast.Mult) and 'rtol' in src(x) and 'norm' in src(x)]
+    ctx.decide('R18.13', f.qual, src(e)[:90], True if (bare and scaled) else None, calls[0], 'max(tol, rtol * |T|)')
+
+
 def run(ctx):
+    r18_13(ctx)
     r18_12(ctx)
     r18_11(ctx)
     r18_10(ctx)
